@@ -58,6 +58,7 @@ func cmdVerify(args []string) int {
 	fs.StringVar(&o.known, "known", "/verif/known_findings.jsonl", "known findings file")
 	fs.StringVar(&o.replayDir, "replays", "/verif/replays", "replay directory")
 	fs.BoolVar(&o.noReplay, "noreplay", false, "skip replay of counterexamples")
+	fs.Int64Var(&o.seed, "seed", 0, "seed (recorded in the evidence; the proof search itself is deterministic)")
 	fs.Parse(args)
 	if o.timeout == 0 {
 		o.timeout = 10
